@@ -1,4 +1,5 @@
-Require Import Model.Base Corr.Common Corr.Draw.
+(* Corr/C16.v — scroll set-up at the Interface boundary and below the real transports *)
+Require Import Model.Base Corr.Common Corr.Draw Corr.L2 Corr.DrawL.
 Definition oracle (v : verdict) : bool := v_results_ok v && v_scroll v.
-Definition check (x : pcase * pout) : Z := code (corr_exact (fst x) (snd x)) (oracle (verdict_of x)).
-Definition model_out := Corr.Draw.model_out.
+Definition check := check_with oracle oracle.
+Definition model_out := Corr.DrawL.model_out.
